@@ -57,7 +57,10 @@ VF_PROPERTY(ladder_msgpack_depth, 3, "MessagePack documents with arrays / maps n
 }
 
 VF_PROPERTY(ladder_msgpack_counts, 3, "MessagePack headers that declare 2^8, 2^16-1, 2^16, 2^31, 2^32-1 elements / bytes (array16/32, map16/32, str8/16/32, bin8/16/32, ext8/16/32) followed by no or little payload, at the root or under a key; targets vector<int64>, vector<string>, map, unordered_map, set, list, forward_list, deque, valarray, vector<bool>, string, vector<uint8_t>, class (skipped), dynamic; memory and streams; non-trivial = declared count >= 2^16") {
-	static const uint64_t counts[] = { 256, 65535, 65536, 0x80000000ull, 0xFFFFFFFFull }; const uint64_t n = counts[c.src.draw(5)]; const int hdr = static_cast<int>(c.src.draw(5)); const int target = static_cast<int>(c.src.draw(16)); const int medium = static_cast<int>(c.src.draw(3)); const bool underKey = c.src.coin(); const size_t payload = c.src.draw(3) == 0 ? 0 : c.src.draw(64); const SerializationOptions o = policies(c.src);
+	static const uint64_t counts[] = { 256, 65535, 65536, 0x80000000ull, 0xFFFFFFFFull }; const uint64_t n = counts[c.src.draw(5)]; const int hdr = static_cast<int>(c.src.draw(5));
+	// mostly a target that matches the header family (so that the declared count reaches the container code), sometimes any target
+	static const int forArr[] = { 0, 1, 4, 5, 6, 7, 8, 9, 13, 15 }, forMap[] = { 2, 3, 12, 14, 2, 3 }, forStr[] = { 10, 1, 2 }, forBin[] = { 11, 13, 11 };
+	const int target = c.src.chance(1, 4) ? static_cast<int>(c.src.draw(16)) : hdr == 0 ? forArr[c.src.draw(10)] : hdr == 1 ? forMap[c.src.draw(6)] : hdr == 2 ? forStr[c.src.draw(3)] : hdr == 3 ? forBin[c.src.draw(3)] : static_cast<int>(c.src.draw(16)); const int medium = static_cast<int>(c.src.draw(3)); const bool underKey = c.src.coin(); const size_t payload = c.src.draw(3) == 0 ? 0 : c.src.draw(64); const SerializationOptions o = policies(c.src);
 	auto be = [](uint64_t v, int bytes) { std::string r; for (int i = bytes - 1; i >= 0; i--) r.push_back(static_cast<char>((v >> (8 * i)) & 0xFF)); return r; };
 	std::string h; const bool w16 = n <= 65535;
 	switch (hdr) { case 0: h = w16 ? "\xdc" + be(n, 2) : "\xdd" + be(n, 4); break; case 1: h = w16 ? "\xde" + be(n, 2) : "\xdf" + be(n, 4); break; case 2: h = n < 256 ? "\xd9" + be(n, 1) : w16 ? "\xda" + be(n, 2) : "\xdb" + be(n, 4); break; case 3: h = n < 256 ? "\xc4" + be(n, 1) : w16 ? "\xc5" + be(n, 2) : "\xc6" + be(n, 4); break; default: h = (n < 256 ? "\xc7" + be(n, 1) : w16 ? "\xc8" + be(n, 2) : "\xc9" + be(n, 4)) + std::string(1, static_cast<char>(c.src.coin() ? 0xFF : 5)); }
